@@ -33,6 +33,8 @@ def worker(names):
     for name in names:
         d = VERIF + "/seeded/" + name
         meta = json.load(open(d + "/meta.json"))
+        if meta.get("obsolete"):
+            print(name, "obsolete (neutralised by an engine repair), skipped", flush=True); continue
         checks = meta.get("caught_by_after_strengthening") or meta.get("caught_by") or [meta["property"]]
         rc, out = sh("git -C %s diff --quiet && (git -C %s apply %s/patch.diff 2>/dev/null || git -C %s apply --3way %s/patch.diff)" % (REPO, REPO, d, REPO, d))
         if rc != 0:
